@@ -24,4 +24,29 @@ func runC02(r *Run) {
 		)
 	}
 	r.ExploreSpecs(specs)
+	// multi-level trees with caller-placed digests: new smallest key, keys between any two
+	// adjacent slabs, removal of a slab's first key, above the last key
+	tor := []string{"sem", "reopen", "pop"}
+	var ts []Spec
+	if !r.Thorough() {
+		for _, sc := range []string{"map-grow-lim", "map-grow-desc"} {
+			ts = append(ts, TrajSpecs(r.ID, sc, 64, 1, 65, 3, 1, 256, []string{"t", "limM"}, tor)...)
+			ts = append(ts, TrajSpecs(r.ID, sc, 64, 2, 14, 4, 2, 256, []string{"t", "limM"}, tor)...)
+		}
+		for _, sc := range []string{"map-drain-front", "map-drain-back", "map-shrink-overwrite"} {
+			ts = append(ts, TrajSpecs(r.ID, sc, 108, 55, 109, 3, 1, 256, []string{"t", "limM"}, tor)...)
+		}
+	} else {
+		for _, T := range []uint32{256, 512} {
+			for _, sc := range []string{"map-grow-lim", "map-grow-desc"} {
+				ts = append(ts, TrajSpecs(r.ID, sc, 90, 1, 91, 1, 1, T, []string{"t", "mid", "limM", "limM+"}, tor)...)
+				ts = append(ts, TrajSpecs(r.ID, sc, 90, 2, 24, 2, 2, T, []string{"t", "limM"}, tor)...)
+			}
+			for _, sc := range []string{"map-drain-front", "map-drain-back", "map-shrink-overwrite"} {
+				ts = append(ts, TrajSpecs(r.ID, sc, 160, 81, 161, 1, 1, T, []string{"t", "mid", "limM", "limM+"}, tor)...)
+				ts = append(ts, TrajSpecs(r.ID, sc, 160, 140, 161, 3, 2, T, []string{"t", "limM"}, tor)...)
+			}
+		}
+	}
+	r.ExploreSpecs(ts)
 }
